@@ -14,6 +14,38 @@ PRELUDE = '''COUNT = [0]
 COUNTING = True
 
 
+class Opaque:
+    """an argument without a repr of its own (its repr is the default one, with an address)"""
+    def __init__(self, v): self.v = v
+
+
+class Tagger:
+    """a method whose receiver is positional-only: a keyword spelled like it belongs to **labels"""
+    def __init__(self, state): self.state = state
+
+    def tag(this, /, **labels):
+        _ran("tag")
+        return (this.state, sorted(labels.items()))
+
+    @classmethod
+    def make(cls, /, **options):
+        _ran("make")
+        return (cls.__name__, sorted(options.items()))
+
+
+class SubTagger(Tagger):
+    pass
+
+
+TAG_A = Tagger("A")
+TAG_B = Tagger("B")
+
+
+def opaque_user(o, x):
+    _ran("opaque_user")
+    return (o.v, x)
+
+
 def _ran(name):
     if COUNTING:
         COUNT[0] += 1
@@ -184,12 +216,39 @@ def build_program(states, rng, per_sig=6, kinds=("function",), max_sigs=None):
             for store in ("_A", "_B"):
                 add(dict(base, args=a, kwargs=k, mode="call", store=store), role="call", cls=(n, "store" + store, image(st)))
                 add(dict(base, args=a, kwargs=k, mode="check", store=store), role="check_after", cls=(n, "store" + store, image(st)))
+        # the very same bytes / str object passed for two parameters, then equal but distinct objects: the same call
+        if kind in ("function", "method") and npar >= 2 and n % 3 == 1:
+            cand = [s for s in shapes if s["npos"] == npar and not s["kw"]]
+            if cand:
+                st = cand[0]
+                for lit, other in (("b'xy'", "bytes(bytearray(b'xy'))"), ("'xy'", "''.join(['x', 'y'])")):
+                    shared = "(" + "".join(lit + ", " for _ in range(npar)) + ")"            # one constant of one code object: one object
+                    apart = "(" + lit + ", " + "".join(other + ", " for _ in range(npar - 1)) + ")"
+                    add(dict(base, args=shared, kwargs="{}", mode="call"), role="call", cls=(n, "shared", lit))
+                    add(dict(base, args=apart, kwargs="{}", mode="check"), role="check_after", cls=(n, "shared", lit))
+                    add(dict(base, args=apart, kwargs="{}", mode="call"), role="equiv", cls=(n, "shared", lit))
+        # decorating an already cached function again (e.g. to add an ignore list) still gives a caching wrapper of its kind
+        if kind in ("function", "async") and n % 5 == 3:
+            st = shapes[0]; a, k = call_exprs(st, names, val_for(st))
+            add(dict(base, args=a, kwargs=k, mode="call", redecorate=True), role="call", cls=(n, "redecorated", image(st)))
+            add(dict(base, args=a, kwargs=k, mode="check", redecorate=True), role="check_after", cls=(n, "redecorated", image(st)))
+            add(dict(base, args=a, kwargs=k, mode="call", redecorate=True), role="equiv", cls=(n, "redecorated", image(st)))
         # one relative location used from two working directories: same spelling, two directories
         if kind == "function" and n % 4 == 2:
             st = shapes[0]; a, k = call_exprs(st, names, val_for(st))
             for store in ("_REL@A", "_REL@B"):
                 add(dict(base, args=a, kwargs=k, mode="call", store=store), role="call", cls=(n, "store" + store, image(st)))
                 add(dict(base, args=a, kwargs=k, mode="check", store=store), role="check_after", cls=(n, "store" + store, image(st)))
+    # hand-written corner cases (once per program)
+    for fz in ("Opaque(1)", "Opaque(2)"):
+        # two partials of one function whose frozen arguments differ only in identity / state (same repr up to an address)
+        add(dict(f="opaque_user", kind="partial", frozen="(%s,)" % fz, args="(7,)", kwargs="{}", mode="call"), role="call", cls=("opaque", fz))
+        add(dict(f="opaque_user", kind="partial", frozen="(%s,)" % fz, args="(7,)", kwargs="{}", mode="shelve"), role="equiv", cls=("opaque", fz))
+    for tgt in ("TAG_A.tag", "TAG_B.tag"):
+        add(dict(f=tgt, kind="expr", args="()", kwargs="{'this': 3}", mode="call"), role="call", cls=("tag", tgt))
+        add(dict(f=tgt, kind="expr", args="()", kwargs="{'this': 3}", mode="call"), role="equiv", cls=("tag", tgt))
+    for tgt in ("Tagger.make", "SubTagger.make"):
+        add(dict(f=tgt, kind="expr", args="()", kwargs="{'cls': 'encoder'}", mode="call"), role="call", cls=("make", tgt))
     return "\n\n".join(src), steps, exp
 
 
